@@ -32,7 +32,7 @@ func gStatefulSetLike(t *rapid.T, id ident) obj {
 	crd := id != idStsNative
 	applyMapShape(s, gLabelsShape(t, "labels-shape", crd), "metadata", "labels")
 	applyMapShape(s, gLabelsShape(t, "ann-shape", crd), "metadata", "annotations")
-	rOpts := []int{0, 0, 1, 3, 3, 5}
+	rOpts := []int{0, 1, 1, 2, 3, 3, 5, 5, 2, 4}
 	if id == idCustom {
 		rOpts = append(rOpts, -1)
 	}
@@ -120,8 +120,8 @@ func genUnified(t *rapid.T) Case {
 	c.TemplateChanged, te = gTemplateEdits(t, newO, c.ID != idStsNative && c.ID != idDeployment)
 	c.Edits = append(c.Edits, te...)
 	c.Edits = append(c.Edits, gRolloutID(t, oldO, newO)...)
-	if rapid.IntRange(0, 3).Draw(t, "edit-replicas") == 0 && c.ID.Kind != "DaemonSet" {
-		setPath(newO, rapid.SampledFrom([]int{0, 0, 1, 4}).Draw(t, "new-replicas"), "spec", "replicas")
+	if rapid.IntRange(0, 4).Draw(t, "edit-replicas") == 0 && c.ID.Kind != "DaemonSet" {
+		setPath(newO, rapid.SampledFrom([]int{0, 1, 4, 6}).Draw(t, "new-replicas"), "spec", "replicas")
 		c.Edits = append(c.Edits, "replicas")
 	}
 	if _, has := getPath(newO, "spec", "updateStrategy", "rollingUpdate", "partition"); has && c.ID.Kind != "CloneSet" && rapid.IntRange(0, 5).Draw(t, "edit-partition") == 0 {
@@ -145,13 +145,6 @@ func genUnified(t *rapid.T) Case {
 	c.ListReverse = rapid.Bool().Draw(t, "list-reverse")
 	c.Old, _ = json.Marshal(oldO)
 	c.New, _ = json.Marshal(newO)
-
-	// steer away from the input class of a listed finding so that the search continues behind it
-	if v, _ := verdictUnified(c); v.KnownClass != "" && knownOpen[v.KnownClass] {
-		vlib.Excluded(chkUnified, v.KnownClass)
-		setPath(newO, 2, "spec", "replicas")
-		c.New, _ = json.Marshal(newO)
-	}
 	return c
 }
 
@@ -191,14 +184,8 @@ func verdictUnified(c Case) (verdict, bool) {
 	case !stsLike:
 		v.Unchanged, v.Class = true, "unchanged:not-statefulset-like"
 	case replicas == 0:
+		// the Decoder's JSON reader yields int64 for whole numbers, so the guard sees spec.replicas
 		v.Unchanged, v.Class = true, "unchanged:not-running"
-		if release && rolling {
-			probe := verdict{}
-			decide(c, &probe, perRollout)
-			if len(probe.Held) > 0 {
-				v.KnownClass = "c08-unified-zero-replicas-held"
-			}
-		}
 	case !release:
 		v.Unchanged, v.Class = true, "unchanged:not-release"
 	default:
@@ -207,8 +194,8 @@ func verdictUnified(c Case) (verdict, bool) {
 	if !sel {
 		v.Unchanged = true
 		v.Class = "unselected/" + v.Class
-		v.NT = false
 	}
+	v.NT = release && hasActiveRollout(c) && v.Class != "unchanged:kind-has-own-handler" && v.Class != "unselected/unchanged:kind-has-own-handler"
 	return v, sel
 }
 
